@@ -182,11 +182,37 @@ def run_c07(pid, tier):
             if "model" in run and run["model"].get("fs", {}).get(b"templates/statics.rs") not in (None, st):
                 disagree.append(("persistent OUT_DIR " + nm, "statics.rs on run %d" % (k + 1), st[-300:], b""))
     n_cases += len(scen)
+    # (6) how the file is stored does not matter: a symbolic link to a file of another name, a path through a linked directory,
+    #     a path with `..` after a linked directory (the OS resolves it through the link's target) -- implementation against the statement
+    scen = []; wants = []
+    for _ in range(6 if tier == "quick" else 40):
+        c = rand_bytes(rng, rng.choice([1, 30, 400]), "rand") or b"x"; other = c + b"?"
+        k = rng.choice(["link", "linkdir", "dotdot"])
+        if k == "link":
+            steps = [('W', 'real/pkg-1.2/style.min.css', c), ('M', 'st'), ('Y', 'st/current.css', '../real/pkg-1.2/style.min.css')]; path = 'st/current.css'
+        elif k == "linkdir":
+            steps = [('W', 'real/theme/logo.svg', c), ('M', 'st'), ('Y', 'st/active', '../real/theme')]; path = 'st/active/logo.svg'
+        else:
+            # st/theme -> ../themes/dark : st/theme/../logo.svg is themes/logo.svg, not st/logo.svg
+            steps = [('W', 'themes/dark/x.txt', b'd'), ('W', 'themes/logo.svg', c), ('W', 'st/logo.svg', other), ('Y', 'st/theme', '../themes/dark')]; path = 'st/theme/../logo.svg'
+        for entry in ('f', 'a'):
+            prog = [('s',), ('f', path)] if entry == 'f' else [('s',), ('a', path, 'pub/' + path.rsplit('/', 1)[-1])]
+            scen.append(steps + [('R', prog)]); wants.append((k, entry, path, c))
+    for (k, entry, path, c), r in zip(wants, build_lib.run_scenarios(scen)):
+        run = [x for x in r["runs"] if x["kind"] == "R"][0]
+        chk.count(("stored %s %s" % (k, entry)).encode() + c, True)
+        st = (run["after"].get(b"templates/statics.rs") or (b"", ""))[0] or b""
+        sn = split_name(path.rsplit("/", 1)[-1])
+        want = (sn[0] + b"-" + py_slug(c) + b"." + sn[1]) if entry == 'f' else ("pub/" + path.rsplit('/', 1)[-1]).encode()
+        if run["status"] != "ok" or (b'name: "' + want + b'"') not in st:
+            oracle_fail.append(("%s of %s (%s)" % ("add_file" if entry == 'f' else "add_file_as", path, {"link": "a symbolic link to a file of another name", "linkdir": "a path through a linked directory", "dotdot": "`..` after a linked directory"}[k]),
+                                "the file is not published as %r (name from the path it was added under, hash of the bytes the OS reads there)" % want, st[-400:].decode("latin1")))
+    n_cases += len(scen)
     for h in hist[:2] + hist[groups[0][0]:groups[0][0] + 1]:
         chk.sample(dict(ops=[(op[0], op[1], len(op[-1])) for op in h]))
     chk.cov["rule"] = ("add_file / add_file_data histories: content sizes %s and random to 8 KiB (thorough: 1-8 MiB on the implementation vs hashlib), zero/0xff/random/ascii fillings; "
                        "names from stems %s x extensions; same file sets in 3 orders/directories/entry points; single-byte flips at first/last/interior offsets; stems that look hashed or versioned already; "
-                       "four runs into one OUT_DIR with the content replaced by other bytes of the same length and modification time and restored again. "
+                       "four runs into one OUT_DIR with the content replaced by other bytes of the same length and modification time and restored again; files reached through symbolic links (to a file of another name, through a linked directory, `..` after a linked directory). "
                        "non-trivial = non-empty content; distinct by op list") % (sizes, STEMS[:8])
     chk.notes["size_histogram"] = size_hist
     chk.assumptions += ["md5 0.7 / base64 0.22 crates: modelled (own MD5 and base64 in Coq), tied by correspondence and by the hashlib oracle",
@@ -345,11 +371,33 @@ def run_c08(pid, tier):
             oracle_fail.append((r["key"], "add_files_as(st, %r) over a tree mixing files and sub-directories publishes %r, expected %r" % (to, got, want), None)); continue
         if "model" in run and run["model"].get("fs", {}).get(b"templates/statics.rs") not in (None, st):
             disagree.append((r["key"], "statics.rs of add_files_as", st[-300:].decode("latin1"), ""))
+    # files read from disk through symbolic links: include_bytes! must name a path at which the OS finds the bytes of the path that was added
+    scen = []; wants = []
+    for k in ["link", "linkdir", "dotdot"] * (2 if tier == "quick" else 10):
+        c = rand_bytes(rng, rng.choice([1, 30, 400]), "rand") or b"x"; other = c + b"?"
+        if k == "link": steps = [('W', 'real/pkg-1.2/style.min.css', c), ('M', 'st'), ('Y', 'st/current.css', '../real/pkg-1.2/style.min.css')]; path = 'st/current.css'
+        elif k == "linkdir": steps = [('W', 'real/theme/logo.svg', c), ('M', 'st'), ('Y', 'st/active', '../real/theme')]; path = 'st/active/logo.svg'
+        else: steps = [('W', 'themes/dark/x.txt', b'd'), ('W', 'themes/logo.svg', c), ('W', 'st/logo.svg', other), ('Y', 'st/theme', '../themes/dark')]; path = 'st/theme/../logo.svg'
+        entry = rng.choice(['f', 'a'])
+        scen.append(steps + [('R', [('s',), ('f', path)] if entry == 'f' else [('s',), ('a', path, 'pub/x.bin')])]); wants.append((k, path, c))
+    keep = tempfile.mkdtemp(prefix="c08links-", dir=BUILD)
+    try:
+        for (k, path, c), r in zip(wants, build_lib.run_scenarios(scen, keep_root=keep)):
+            run = [x for x in r["runs"] if x["kind"] == "R"][0]
+            chk.count(("link %s " % k).encode() + c, True)
+            st = (run["after"].get(b"templates/statics.rs") or (b"", ""))[0] or b""
+            m0 = re.search(rb'content: include_bytes!\("((?:[^"\\]|\\.)*)"\)', st)
+            try: got = open(m0.group(1).decode(), "rb").read() if m0 else None
+            except OSError as e: got = ("unreadable: %s" % e).encode()
+            if run["status"] != "ok" or got != c:
+                oracle_fail.append(("file added as %s (%s)" % (path, k), "the generated item embeds %r, where the OS finds %r; the path that was added holds %r" % (m0.group(1)[-60:] if m0 else None, (got or b"")[:40], c[:40]), st[-400:].decode("latin1")))
+    finally:
+        shutil.rmtree(keep, ignore_errors=True)
     for h in hist[:1] + hist[60:62]:
         chk.sample(dict(ops=[(op[0], op[1], op[2] if op[0] == "A" else len(op[2])) for op in h]))
     chk.cov["rule"] = ("contents: all 256 byte values alone / in context / all together, lengths 0..4096; names with every printable ASCII punctuation character, quotes, backslash, "
                        "control characters and sampled non-ASCII (incl. U+200B, U+0300, U+FEFF), also in the directory part of files read from disk; data of 40000 (70000) equal bytes and blanks / escapes "
-                       "at the 1-64 KiB marks; entry points add_file, add_file_as, add_file_data, and add_files_as over trees mixing files and sub-directories; "
+                       "at the 1-64 KiB marks; entry points add_file, add_file_as, add_file_data, and add_files_as over trees mixing files and sub-directories; files reached through symbolic links (the embedded path must lead to the same bytes); "
                        "each generated statics.rs compared with the model byte for byte AND compiled with rustc, content/name read back. distinct by op list")
     chk.assumptions += ["rustc's literal lexer: modelled in RustLit.v for the theorems, and exercised directly by the compile-and-read-back batches"]
     return finish_checks(chk, proof, info, disagree, oracle_fail, len(hist))
@@ -374,7 +422,8 @@ def run_c09(pid, tier):
         pr = list(urls)
         for u in urls[:3]:
             pr += [u[:-1], u + b"x", u.swapcase(), u[:-5] + bytes([u[-5] ^ 1]) + u[-4:] if len(u) > 5 else u, u.replace(b"-", b"_", 1)]
-        pr += [b"", b"a", b"~", b"to/"]
+        for u in urls[:2]: pr += [b"/" + u, u + b"/", b" " + u, u + b" ", b"./" + u, u + b"\0"]
+        pr += [b"", b"a", b"~", b"to/", b"/"]
         hist.append(h); probes.append(pr)
     # all orders of small sets
     for _ in range(6 if tier == "quick" else 40):
@@ -383,6 +432,9 @@ def run_c09(pid, tier):
             add(list(perm))
     for _ in range(60 if tier == "quick" else 500):
         add(distinct_history(rng, rng.randint(0, 9), name_pool=COLLIDERS if rng.random() < 0.6 else None, unicode_ok=False))
+    # more files than fit on a line / in a small table: 17, 33, 40 entries
+    for cnt in (17, 33, 40):
+        add([("D", "f%02d%s.%s" % (k, rng.choice(["", "-x", ".min"]), rng.choice(["css", "js", "png"])), b"%d" % k) for k in rng.sample(range(cnt), cnt)])
     # verbatim url names (add_file_as): path-like names next to siblings with '-' / '.', names without any dot
     for _ in range(60 if tier == "quick" else 400):
         h = as_history(rng, rng.randint(2, 8))
@@ -702,6 +754,27 @@ def run_c20(pid, tier):
             if any(u not in css for u in musthave):
                 oracle_fail.append((key, "static_name() of a file added between two stylesheets did not resolve to its published name inside the second one", css[:300].decode("latin1"))); break
     chk.notes["stylesheet_sequences"] = len(seqs)
+    # members whose names are not ASCII; compiled css beyond 64 KiB whose only varying bytes lie at its end
+    special = []
+    for nm in ["bl\u00e5b\u00e4r.png", "\u65e5\u672c.svg", "caf\u00e9 menu.pdf"]:
+        special.append(([("D", nm, nm.encode())], 'a{b:static_name("%s")}' % nm, nm))
+    for tail in ("one.png", "two.png"):
+        special.append(([("D", tail, tail.encode())], "".join("r%d{margin:%dpx;padding:%dpx;color:#%06x}" % (k, k, k + 1, k) for k in range(2200)) + 'z{u:static_name("%s")}' % tail, tail))
+    lines = [impl_line(h) + " W:%s:%s S:%s" % (hx("scss/big.scss"), hx(scss.encode()), hx("scss/big.scss")) for h, scss, _ in special]
+    for (h, scss, nm), a in zip(special, [parse_fields(l) for l in run_capture(HARNESS, "statics", lines)]):
+        chk.count(scss[-60:].encode() + nm.encode(), True)
+        key = h + [("S", "scss/big.scss", scss[-80:])]
+        if not a.get("op") or a["op"][-1] != "ok":
+            oracle_fail.append((key, "a stylesheet referring to the member %r failed to build" % nm, unhexs(a["op"][-1]).decode("latin1")[:300] if a.get("op") else None)); continue
+        st = unhexs(a.get("statics", "-"))
+        m0 = re.search(rb'pub static big_css: StaticFile = StaticFile \{\n  content: b"((?:[^"\\]|\\.|\\\n)*)",\n  name: "((?:[^"\\]|\\.)*)"', st)
+        if not m0:
+            oracle_fail.append((key, "no item for the compiled stylesheet big.css in statics.rs", st[-300:].decode("latin1"))); continue
+        css = rust_bytes(m0.group(1)); name = m0.group(2); url = published_urls(h)[0]
+        if name != b"big-" + py_slug(css) + b".css":
+            oracle_fail.append((key, "the compiled css (%d bytes) is published as %r, which is not big-<hash of the embedded css bytes>.css (%r)" % (len(css), name, b"big-" + py_slug(css) + b".css"), css[-120:].decode("latin1"))); continue
+        if url not in css:
+            oracle_fail.append((key, "static_name(%r) did not resolve to the published name %r inside the compiled css" % (nm, url), css[-200:].decode("latin1")))
     import build_lib
     scen = []; meta2 = []
     for _ in range(8 if tier == "quick" else 60):
